@@ -33,6 +33,8 @@ class Injector:
         self.n = 0
         self.trace = []
         self.injected_at = {}
+        self.stack = []  # injected senders whose send is in progress (innermost last)
+        self.parent = {}  # injected sender -> the injected sender inside whose send it was let in (None: the main sender's)
 
     def point(self, op):
         while self.pending:
@@ -41,11 +43,15 @@ class Injector:
                 return
             who = self.pending.pop(0)
             self.injected_at[who] = op
+            self.parent[who] = self.stack[-1] if self.stack else None
             self.trace.append(("inject", who, op))
+            self.stack.append(who)
             try:
                 self.sm.send("tick", eid=self.payload(who))
             except Fail:
                 self.trace.append(("raised-to", who))
+            finally:
+                self.stack.pop()
             self.trace.append(("returned", who))
 
 
@@ -317,7 +323,18 @@ def run(ctx, params):
     left = deque.__len__(q)
     if lost or left:
         where = sorted({inj.injected_at.get(e, "?") for e in others})
-        at_release = [w for w in others if inj.injected_at.get(w) == "release"]
+        def in_window(w):
+            # let in right before a drainer's release, or inside the send of a sender that was (the whole nested send
+            # happens between that drainer's last emptiness test and its release)
+            seen_ = set()
+            while w is not None and w not in seen_:
+                seen_.add(w)
+                if inj.injected_at.get(w) == "release":
+                    return True
+                w = inj.parent.get(w)
+            return False
+
+        at_release = [w for w in others if in_window(w)]
         missing = sum(sent.count(e) - began.get(e, 0) for e in set(lost))
         if at_release and left == len(at_release) and missing == len(at_release):
             # exactly the senders that were let in right before the drainer's release are the ones left in the queue
